@@ -669,7 +669,7 @@ func (g *fastGenerator) unmarshalMapField(varName string, field *protogen.Field)
 		g.P(`if postStringIndex`, varName, ` < 0 {`)
 		g.P(`return `, protoifacePkg.Ident("UnmarshalOutput"), "{NoUnkeyedLiterals: input.NoUnkeyedLiterals, Flags: input.Flags},", runtimePackage.Ident("ErrInvalidLength"))
 		g.P(`}`)
-		g.P(`if postStringIndex`, varName, ` > l {`)
+		g.P(`if postStringIndex`, varName, ` > postIndex {`) // the entry, not the whole input, bounds its key and value
 		g.P(`return `, protoifacePkg.Ident("UnmarshalOutput"), "{NoUnkeyedLiterals: input.NoUnkeyedLiterals, Flags: input.Flags},", g.Ident("io", `ErrUnexpectedEOF`))
 		g.P(`}`)
 		g.P(varName, ` = `, "string", `(dAtA[iNdEx:postStringIndex`, varName, `])`)
@@ -684,7 +684,7 @@ func (g *fastGenerator) unmarshalMapField(varName string, field *protogen.Field)
 		g.P(`if postmsgIndex < 0 {`)
 		g.P(`return `, protoifacePkg.Ident("UnmarshalOutput"), "{NoUnkeyedLiterals: input.NoUnkeyedLiterals, Flags: input.Flags},", runtimePackage.Ident("ErrInvalidLength"))
 		g.P(`}`)
-		g.P(`if postmsgIndex > l {`)
+		g.P(`if postmsgIndex > postIndex {`)
 		g.P(`return `, protoifacePkg.Ident("UnmarshalOutput"), "{NoUnkeyedLiterals: input.NoUnkeyedLiterals, Flags: input.Flags},", g.Ident("io", `ErrUnexpectedEOF`))
 		g.P(`}`)
 		buf := `dAtA[iNdEx:postmsgIndex]`
@@ -702,7 +702,7 @@ func (g *fastGenerator) unmarshalMapField(varName string, field *protogen.Field)
 		g.P(`if postbytesIndex < 0 {`)
 		g.P(`return `, protoifacePkg.Ident("UnmarshalOutput"), "{NoUnkeyedLiterals: input.NoUnkeyedLiterals, Flags: input.Flags},", runtimePackage.Ident("ErrInvalidLength"))
 		g.P(`}`)
-		g.P(`if postbytesIndex > l {`)
+		g.P(`if postbytesIndex > postIndex {`)
 		g.P(`return `, protoifacePkg.Ident("UnmarshalOutput"), "{NoUnkeyedLiterals: input.NoUnkeyedLiterals, Flags: input.Flags},", g.Ident("io", `ErrUnexpectedEOF`))
 		g.P(`}`)
 		g.P(varName, ` = make([]byte, mapbyteLen)`)
